@@ -13,7 +13,7 @@ namespace Conc
 the two documented ownership transfers, the mutating methods of helper sets and the
 continuation of a running `Walk` (which appends to the walk's own path buffer) -/
 def readOnlyApi : Api → Bool
-  | .numberVal _ | .tupleType _ | .vsAdd .. | .vsRemove .. | .psAdd .. | .walkNext _ => false
+  | .numberVal _ | .tupleType _ | .vsAdd .. | .vsRemove .. | .psAdd .. | .psRemove .. | .walkNext _ => false
   | _ => true
 
 /-- caller actions that only allocate -/
